@@ -161,6 +161,11 @@ def check(prop, cfg, tier, seed, replay=None):
             if r.get("error"):
                 tie_broken.append({"what": "correspondence stream %s/%s did not complete: %s" % (s["component"], tag, r["error"]),
                                    "detail": r.get("harness_out", "")[-3000:]})
+            if s.get("compare") == "panic-only":
+                # a stream borrowed from another property: for THIS property only a disagreement about
+                # panicking counts (the rest of the comparison belongs to the owning property's check)
+                r["mismatches"] = [mm for mm in r["mismatches"]
+                                   if ("panic" in mm["impl"].lower()) != ("panic" in mm["model"].lower())]
             for mm in r["mismatches"][:5]:
                 tie_broken.append({"what": "model and implementation disagree (stream %s, line %d)" % (s["component"], mm["line"]),
                                    "component": s["component"], "op": mm["op"], "model_op": mm["model_op"],
